@@ -95,6 +95,11 @@ pub fn role_of(model: &Model, sender: &str) -> String {
         "lp-token".into()
     } else if model.tokens.iter().any(|t| t == sender) {
         "asset-token".into()
+    } else if [&model.owner, &model.factory, &model.router]
+        .iter()
+        .any(|a| sender.starts_with(a.as_str()) || a.starts_with(sender))
+    {
+        "look-alike".into()
     } else {
         "stranger".into()
     }
@@ -203,10 +208,34 @@ pub fn run_tx(ctx: &Ctx, cov: &mut Cover) {
                 AssetRef::Lp(_) => "l",
                 AssetRef::Raw(_) => "r",
             };
+            let name_shape = {
+                let ids: Vec<String> = [&a, &b].iter().map(|x| x.to_string()).collect();
+                let known: Vec<String> = m
+                    .pairs
+                    .iter()
+                    .flat_map(|p| p.infos.iter().map(|i| i.to_string()))
+                    .collect();
+                let mut sorted = ids.clone();
+                sorted.sort();
+                let concat = sorted.concat();
+                let collides = m.pairs.iter().any(|p| {
+                    let mut k: Vec<String> = p.infos.iter().map(|i| i.to_string()).collect();
+                    k.sort();
+                    k.concat() == concat && k != sorted
+                });
+                if collides {
+                    "concat-collision"
+                } else if ids.iter().any(|x| known.iter().any(|k| k != x && (k.starts_with(x.as_str()) || x.starts_with(k.as_str())))) {
+                    "shared-prefix"
+                } else {
+                    "plain"
+                }
+            };
             cov.case(
                 "C16",
                 format!(
-                    "create|{}{}|dup{}|same{}|live{}{}|{}",
+                    "create|{}|{}{}|dup{}|same{}|live{}{}|{}",
+                    name_shape,
                     shape(&assets[0]),
                     shape(&assets[1]),
                     dup,
